@@ -149,10 +149,75 @@ def history_harness(nslots, nmaps):
     return harness
 
 
+def concurrent_harness(nslots, nmaps):
+    """mappings requested by different tasks at the same time (two sync
+    groups starting together): every register write suspends the task, as a
+    real bus round trip does"""
+    def harness():
+        eth = pysym.module("ethercat")
+        model = busmodel.TerminalModel("t", position=1234)
+        bus = busmodel.Bus(eth, [model])
+        kinds = [bool(E.bool(f"map{i}_is_write")) for i in range(nmaps)]
+        logs = [E.int(f"map{i}_logical", 0x1000, 0x7fffffff)
+                for i in range(nmaps)]
+        live = {}
+        failed = []
+
+        async def main():
+            ec = busmodel.make_ec(eth)
+            t = eth.Terminal(ec)
+            t.position = 1234
+            t.fmmu_used = [None] * nslots
+            t.pdo_out_off = t.pdo_in_off = 0x1100
+            t.pdo_out_sz = t.pdo_in_sz = 8
+            release = [asyncio.Event() for _ in range(nmaps)]
+
+            async def user(i):
+                try:
+                    async with t.map_fmmu(logs[i], kinds[i]) as idx:
+                        E.prove(isinstance(idx, int) and 0 <= idx < nslots
+                                and idx not in live.values(),
+                                f"concurrent mapping {i} got FMMU {idx} while "
+                                f"live mappings use {sorted(live.values())} "
+                                f"of {nslots}")
+                        live[i] = idx
+                        await release[i].wait()
+                        E.prove(t.fmmu_used[idx] is not None
+                                if 0 <= idx < nslots else False,
+                                f"FMMU {idx} of live mapping {i} is still "
+                                "reserved when it ends")
+                        del live[i]
+                except (ValueError, IndexError):
+                    failed.append(i)
+
+            async def body():
+                tasks = [asyncio.ensure_future(user(i)) for i in range(nmaps)]
+                for _ in range(20):
+                    await asyncio.sleep(0)
+                E.prove(len(live) <= nslots, "no more live mappings than FMMUs")
+                E.prove(len(live) + len(failed) == nmaps,
+                        "every request either holds an FMMU or failed")
+                order = list(range(nmaps))
+                while order:
+                    k = E.choose(len(order), "which mapping ends next")
+                    release[order.pop(k)].set()
+                    for _ in range(10):
+                        await asyncio.sleep(0)
+                await asyncio.gather(*tasks)
+                E.prove(all(x is None for x in t.fmmu_used),
+                        "all FMMUs are free after every mapping ended")
+            await busmodel.with_bus(ec, bus, body())
+        pysym.run_async(main, max_steps=8000)
+    return harness
+
+
 def worker(args):
     kind, a, b = args
     res = pyrun.new_res()
-    if kind == "step":
+    if kind == "conc":
+        name = f"concurrent: {a} FMMUs, {b} tasks mapping at the same time"
+        h = concurrent_harness(a, b)
+    elif kind == "step":
         name = f"map_fmmu step: {a} FMMUs, {'write' if b else 'read'}"
         h = step_harness(a, b)
     else:
@@ -181,6 +246,10 @@ def main(tier, replay_file=None):
                               + ("3" if tier == "quick" else "4")
                               + " mappings (read/write chosen by the solver), "
                                 "ended in every order",
+                    concurrency="2..3 tasks requesting mappings of one "
+                                "terminal at the same time on the deterministic "
+                                "event loop (every register write suspends), "
+                                "ended in every order",
                     outside="terminals with more than 4 FMMUs"),
         stubs=["bus model at the datagram interface; FMMU registers are "
                "plain recorded memory"],
@@ -190,6 +259,7 @@ def main(tier, replay_file=None):
     items = [("step", n, w) for n in (1, 2, 3, 4) for w in (True, False)]
     hmax = 3 if tier == "quick" else 4
     items += [("hist", n, m) for n in (1, 2, 3, 4) for m in range(1, hmax + 1)]
+    items += [("conc", n, m) for n in (1, 2, 3) for m in (2, 3)]
     for res in common.pmap(worker, items):
         ck.add(res)
     return ck.finish()
